@@ -8,5 +8,7 @@ cd sim
 go1.26.8 vet -tags verif ./core/ ./ref/ >/dev/null 2>&1 || true
 go1.26.8 test -c -tags verif -o ../.build/props.test ./props/
 rm -f ../.build/props.test
+go1.26.8 build -o ../.build/instrument ./instrument && rm -f ../.build/instrument
+go1.26.8 build -o ../.build/registry_gen ./registry_gen && rm -f ../.build/registry_gen
 (cd ../crash && go1.26.8 build -o ../.build/crash . && rm -f ../.build/crash)
 echo setup ok
